@@ -220,7 +220,20 @@ def qobs(q):
         lst("(%s, %s)" % (lst(A(c) for c in e["batch"]), res(e["r"], lambda rs: lst(ri(r) for r in rs))) for e in q["reg_multi"]))
 
 
-HEADER = "From FM Require Import CheckStep.\n"
+HEADER = "From FM Require Import CheckStep.\nFrom FM Require Import Wire.\n"
+
+
+def byte_list(bs):
+    return "[" + "; ".join(str(b) for b in bs) + "]"
+
+
+def wire_term(m):
+    """wire_ok applied to the bytes of one real fund-community-pool message."""
+    cs = m["coins"]
+    if len(cs) != 1 or "raw" not in m:
+        raise ValueError("fund_pool message without raw payload / with %d coins" % len(cs))
+    return "(wire_ok %s %s %s %s %s)" % (byte_list(cs[0][0].encode()), n(cs[0][1]), byte_list(m["depositor"].encode()),
+                                          byte_list(m["type_url"].encode()), byte_list(bytes.fromhex(m["raw"])))
 
 RESULT_RE = re.compile(r"=\s*\((\d+)(?:%N)?,\s*(\d+)(?:%N)?\)")
 
